@@ -65,6 +65,7 @@ def _interp_chunk(cases):
 
 
 def interpolate(alpha: str, max_t: int, headers: list[list[str]], values: list[list[str]], tag="interp"):
+    # (tag distinguishes the scratch directories of several instances in one check)
     defs = (f"A_ == {{{', '.join(str(ord(c)) for c in alpha)}}}\n"
             f"H_ == {{{', '.join('<<' + ', '.join(tla_seq(x) for x in h) + '>>' for h in headers)}}}\n"
             f"V_ == {{{', '.join('<<' + ', '.join(tla_seq(x) for x in v) + '>>' for v in values)}}}")
